@@ -16,9 +16,27 @@ for f in sorted(glob.glob('/tmp/mx/matrix-*.txt')) + sorted(glob.glob('/tmp/mx/r
             if '=' in kv:
                 c, rc = kv.split('=')
                 d[c] = int(rc)
+# round 2 ("deep" changes that must not manifest on tiny inputs): /tmp/seed/out2, ids Cxx-d<k>;
+# r2-*.txt = current checks, old-*.txt = the checks as they were before the round-2 strengthening
+det2, old2 = {}, {}
+for tgt, pat in ((det2, '/tmp/mx/r2-*.txt'), (old2, '/tmp/mx/old-*.txt')):
+    for f in sorted(glob.glob(pat)):
+        for line in open(f):
+            parts = line.split()
+            if not parts or '/' not in parts[0]:
+                continue
+            key = parts[0].replace('/m', '-d')
+            d = tgt.setdefault(key, {})
+            for kv in parts[1:]:
+                if '=' in kv:
+                    c, rc = kv.split('=')
+                    d[c] = int(rc)
 n = 0
-for d in sorted(glob.glob('/tmp/seed/out/C*/m*/')):
+for d in sorted(glob.glob('/tmp/seed/out/C*/m*/')) + sorted(glob.glob('/tmp/seed/out2/C*/m*/')):
     pid, k = d.rstrip('/').split('/')[-2:]
+    round2 = '/out2/' in d
+    if round2:
+        k = k.replace('m', 'd')
     conf = os.path.join(d, 'confirm.json')
     if not os.path.exists(conf):
         continue
@@ -35,14 +53,16 @@ for d in sorted(glob.glob('/tmp/seed/out/C*/m*/')):
         am = json.load(open(os.path.join(d, 'meta.json')))
     except Exception:
         am = {}
-    checks = det.get(sid, {})
+    checks = det2.get(sid, {}) if round2 else det.get(sid, {})
     meta = {
         "id": sid,
         "property": pid,
         "summary": am.get("summary", ""),
         "needs_to_manifest": am.get("needs_to_manifest", ""),
         "clause_violated": am.get("clause_violated", ""),
-        "origin": "written by a fresh sub-agent that saw only the property text and a scratch worktree of /repo (nothing from /verif)",
+        "round": 2 if round2 else 1,
+        "minimal_trigger_size": am.get("minimal_trigger_size"),
+        "origin": "written by a fresh sub-agent that saw only the property text and a scratch worktree of /repo (nothing from /verif)" + ("; round 2: asked for changes that cannot manifest on inputs with <=3 nodes, <=2 hyperedges, interfaces <=2, <=3 steps" if round2 else ""),
         "confirmed_in_scratch_worktree": {
             "commands": [
                 "cp demo.rs tests/demo_seed.rs && cargo test --offline --test demo_seed   (clean tree: passes)",
@@ -58,6 +78,8 @@ for d in sorted(glob.glob('/tmp/seed/out/C*/m*/')):
         "detected_by_own_property_check": checks.get(pid) == 1,
         "detected_by": sorted([k2 for k2, v in checks.items() if v == 1]),
     }
+    if round2:
+        meta["detected_by_own_check_before_round2_strengthening"] = old2.get(sid, {}).get(pid) == 1
     json.dump(meta, open(os.path.join(out, 'meta.json'), 'w'), indent=1)
     n += 1
 print("kept", n)
